@@ -113,6 +113,9 @@ type Prog struct {
 	Expect string  `json:"expect"`          // "ok", or the error class the single injected fault must give
 	Shape  string  `json:"shape"`           // generator's label
 	Fixed  bool    `json:"fixed,omitempty"` // hand-written case: reported as it is, not shrunk
+	// Observe: a probe outside the property's hypotheses (definition named like a type keyword): the
+	// oracle's verdict is recorded in the statistics, not raised as a failure.
+	Observe bool `json:"observe,omitempty"`
 }
 
 // ---------------------------------------------------------------- IDL text
